@@ -74,6 +74,7 @@ Print Assumptions C13_hev_is_handler_event.
 (* the boolean forms of two hypotheses are sound *)
 Theorem C13_ids_below_b_sound : forall s, ids_below_b s = true -> ids_below s.
 Proof. exact ids_below_b_sound. Qed.
+Print Assumptions C13_ids_below_b_sound.
 Theorem C13_all_vars_b_sound : forall s l, all_vars_b s l = true -> Forall (fun v => isVar s v = true) l.
 Proof. exact all_vars_b_sound. Qed.
 Print Assumptions C13_all_vars_b_sound.
